@@ -271,14 +271,17 @@ struct Finding {
     what: String,
 }
 
+fn glob(pat: &[u8], s: &[u8]) -> bool {
+    // `*` matches any (possibly empty) run of characters; everything else is literal
+    match pat.first() {
+        None => s.is_empty(),
+        Some(b'*') => (0..=s.len()).any(|i| glob(&pat[1..], &s[i..])),
+        Some(c) => s.first() == Some(c) && glob(&pat[1..], &s[1..]),
+    }
+}
+
 fn shape_matches(pat: &str, shape: &str) -> bool {
-    pat.split('|').any(|alt| {
-        if let Some(pre) = alt.strip_suffix('*') {
-            shape.starts_with(pre)
-        } else {
-            alt == shape
-        }
-    })
+    pat.split('|').any(|alt| glob(alt.as_bytes(), shape.as_bytes()))
 }
 
 fn load_findings(prop: &str) -> Vec<Finding> {
